@@ -26,7 +26,7 @@ from .common import fd_env, mods, ALL
 ID = 'C05'
 TRUSTED = [
     'A1 float == real; A2 numpy object arrays apply the same element operations as float arrays',
-    'step generator contract (proved under C10): every generated step is positive (element-wise) and is passed to the '
+    'step generator contract (positivity discharged in this check: generated-steps-positive; the sequence itself under C10): every generated step is positive (element-wise) and is passed to the '
     'difference function unchanged',
     'z3 / cvc5 as deciders (linear real arithmetic + sqrt(2) as algebraic constant)',
 ]
@@ -78,6 +78,8 @@ def groups(tier):
         out.append(('glue[%s]' % klass, ('glue', klass, tier)))
     out.append(('frame', ('frame',)))
     out.append(('points-concrete', ('pconc',)))
+    # the precondition h > 0 of the points / glue groups is the generators' postcondition: discharged on the real generators here
+    out.append(('generated-steps-positive', ('steps',)))
     # Gradient / Jacobian of an x with several axes: every evaluation point differs from x.ravel() in at most one coordinate
     # whatever the memory layout of x (generator shared with C03)
     out.append(('layout[Gradient]', ('dep', 'C03', 'run_layout', (), {})))
@@ -522,12 +524,63 @@ def run_pconc():
     solve.fact('evaluation-points-admissible-in-floating-point(unperturbed-coordinates-bit-identical-to-x)[%d cases]' % cnt, not bad, kind='bounded', note=str(bad[:2])[:400])
     return {}
 
+def run_steps_positive():
+    """every step produced by the real Min/MaxStepGenerator is > 0 in every element, for every real x (either sign, zero),
+    default and user options (positive base_step / step_nom, ratio > 1): the `h > 0` that 'forward never below x' rests on"""
+    m = mods(); sg = m['sg']
+    info = dict(sequences=0)
+    with installed(sg):
+        for kind, cls in (('Min', sg.MinStepGenerator), ('Max', sg.MaxStepGenerator)):
+            opts = [dict(), dict(base_step='sym'), dict(base_step='sym', step_ratio='sym', num_steps=4), dict(step_nom='sym'), dict(num_steps=3, offset=2),
+                    dict(base_step='sym', use_exact_steps=False)]
+            for oi, opt in enumerate(opts):
+                for method, n, order in [('forward', 1, 2), ('backward', 2, 1), ('central', 1, 2), ('complex', 1, 2)]:
+                    if oi > 1 and method not in ('forward', 'backward'):
+                        continue
+                    for xkind in ('scalar', 'array'):
+                        CTX.reset()
+                        o, hy = {}, []
+                        for k, v in opt.items():
+                            if v == 'sym':
+                                o[k] = real('opt_' + k)
+                                hy.append(o[k].t > (1 if k == 'step_ratio' else 0))
+                            else:
+                                o[k] = v
+                        x = real('x') if xkind == 'scalar' else SymArr([real('x0'), real('x1')])
+                        tag = '%s,opt%d,%s,n=%d,%s:' % (kind, oi, method, n, xkind)
+
+                        def run():
+                            g = cls(**o).step_generator_function(x, method, n, order)
+                            return list(g())
+                        try:
+                            paths = explore(run, pre=hy, max_paths=64, forced=lambda cond: True, catch=(Exception,))
+                        except NeedsConcrete as e:
+                            solve.record(tag + 'runs', 'unknown', 'NeedsConcrete', 0.0, None, 'vc', reason=str(e)[:200])
+                            continue
+                        ok = len(paths) >= 1 and all(p.exc is None for p in paths)
+                        solve.fact(tag + 'runs', ok, note=str([repr(p.exc)[:120] for p in paths if p.exc][:1]))
+                        if not ok:
+                            continue
+                        info['sequences'] += 1
+                        for pi, p in enumerate(paths):
+                            solve.fact(tag + 'path%d:yields-steps' % pi, len(p.value) >= 1)
+                            for k, st in enumerate(p.value if len(p.value) <= 4 else [p.value[0], p.value[len(p.value) // 2], p.value[-1]]):
+                                els = asobj(st).ravel()
+                                ok_real = all(not isinstance(lift(e), C) for e in els)
+                                solve.fact(tag + 'path%d:step%d-real' % (pi, k), ok_real)
+                                if ok_real:
+                                    solve.prove(tag + 'path%d:step%d>0-in-every-element-for-every-x' % (pi, k), z3.And(*[lift(e).t > 0 for e in els]), p.hyps)
+    return info
+
+
 def run_group(args):
     if args[0] == 'dep':
         import importlib
         return getattr(importlib.import_module('props.' + args[1]), args[2])(*args[3], **args[4])
     if args[0] == 'pconc':
         return run_pconc()
+    if args[0] == 'steps':
+        return run_steps_positive()
     if args[0] == 'points':
         return run_points(args[1], args[2])
     if args[0] == 'dispatch':
@@ -543,6 +596,8 @@ def replay_case(ob):
         return dict(kind='C03.layout')
     if ob['name'].startswith('points-concrete/'):
         return dict(kind='C05.pconc')
+    if ob['name'].startswith('generated-steps-positive/'):
+        return dict(kind='C05.signs')
     import re
     mm = re.search(r'points\[(\w+),d=(\d+)\]/(_\w+?):', ob['name'])
     if mm:
